@@ -9,6 +9,7 @@ import DateutilVerif.Proofs.FactoryRank
 import DateutilVerif.Proofs.FactoryTerm
 import DateutilVerif.Proofs.GettzResolve
 import DateutilVerif.Proofs.FactorySim
+import DateutilVerif.Model.Reduce
 
 namespace C18
 open Fact
@@ -608,5 +609,71 @@ theorem gettz_caches_exactly (name : Option String) (r : Resolution) :
   cases r <;> cases name <;> simp [cacheClass]
 
 end Resolve
+
+
+/-! ### copies and pickles (Model/Reduce.lean) -/
+section ReduceModel
+open Reduce
+
+/-- **reduce_roundtrip_dict.** What pickle (any protocol 0..5), copy.copy and copy.deepcopy rebuild has, for EVERY attribute
+    name, the value the original has: the state travels whole (`__dict__`), nothing is re-derived from the environment
+    (no `__init__`, no factory call) except `tzfile._filename`, which the state then overrides with the same value. -/
+theorem reduce_roundtrip_dict (p : Nat) (o : Obj) (r : Reduced) (h : reduce p o = some r) (k : String) :
+    lookup k (rebuild r).dict = lookup k o.dict := by
+  unfold reduce at h
+  cases hc : o.cls <;> simp only [hc] at h
+  case tzfile =>
+    cases hf : lookup "_filename" o.dict with
+    | none => simp [hf] at h
+    | some fn =>
+        simp only [hf, Option.map_some, Option.some.injEq] at h
+        subst h
+        simp only [rebuild, update, lookup_append, lookup]
+        by_cases hk : "_filename" = k
+        · subst hk; simp [hf]
+        · simp [hk]
+  all_goals
+    simp only [Option.some.injEq] at h
+    subst h
+    split <;> simp [rebuild, update, lookup_append, lookup]
+
+/-- **reduce_roundtrip_eq.** Copies and pickles have the class of the original and compare equal to it
+    (`__eq__` reads only attributes, and every attribute survives). -/
+theorem reduce_roundtrip_eq (p : Nat) (o : Obj) (r : Reduced) (h : reduce p o = some r) :
+    (rebuild r).cls = o.cls ∧ objEq (rebuild r) o = true := by
+  have hd := reduce_roundtrip_dict p o r h
+  have hcls : (rebuild r).cls = o.cls := by
+    unfold reduce at h
+    cases hc : o.cls <;> simp only [hc] at h
+    case tzfile =>
+      cases hf : lookup "_filename" o.dict with
+      | none => simp [hf] at h
+      | some fn => simp only [hf, Option.map_some, Option.some.injEq] at h; subst h; rfl
+    all_goals
+      simp only [Option.some.injEq] at h
+      subst h
+      split <;> rfl
+  refine ⟨hcls, ?_⟩
+  simp only [objEq, hcls, beq_self_eq_true, Bool.true_and, List.all_eq_true, beq_iff_eq]
+  intro k _
+  exact hd k
+
+/-- reduction fails only for a tzfile object without `_filename` (AttributeError) -/
+theorem reduce_total (p : Nat) (o : Obj) (h : o.cls = .tzfile → (lookup "_filename" o.dict).isSome = true) :
+    (reduce p o).isSome = true := by
+  unfold reduce
+  cases hc : o.cls <;> simp
+  have := h hc
+  cases hf : lookup "_filename" o.dict <;> simp_all
+
+/-! non-vacuity: a tzfile object (three compared attributes + `_filename` + an attribute `__eq__` ignores) and a tzrange -/
+def exF : Obj := ⟨.tzfile, [("_filename", 7), ("_trans_list", 1), ("_trans_idx", 2), ("_ttinfo_list", 3), ("_ttinfo_std", 4)]⟩
+example : (reduce 2 exF).map (fun r => (rebuild r).dict) =
+    some [("_filename", 7), ("_trans_list", 1), ("_trans_idx", 2), ("_ttinfo_list", 3), ("_ttinfo_std", 4), ("_filename", 7)] := by decide
+example : (reduce 0 ⟨.tzoffset, [("_name", 1), ("_offset", 3600)]⟩).map (fun r => objEq (rebuild r) ⟨.tzoffset, [("_name", 1), ("_offset", 3600)]⟩) = some true := by decide
+example : objEq ⟨.tzoffset, [("_offset", 1)]⟩ ⟨.tzoffset, [("_offset", 2)]⟩ = false := by decide
+
+
+end ReduceModel
 
 end C18
